@@ -205,3 +205,56 @@ func VC13Loop(kind, at int) {
 	vAssert("no-goroutine-left", vCancelReleased())
 	cancel()
 }
+
+// ---- a second Run on the same CPU ------------------------------------------------
+//
+// Run(ctx1) ends by itself; the caller cancels ctx1 right after (its deferred
+// cancel); Run(ctx2) on the same CPU under a live context must not be disturbed
+// by anything the first Run left behind: it ends on its own HALT or breakpoint
+// like a Step-driven twin.  lazy = 1 explores the schedule in which the
+// goroutines woken by the first Run's return only run later (at the at-th
+// instruction fetch of the second Run).
+
+type vSettleDev struct {
+	vScript
+	at int
+}
+
+func (m *vSettleDev) Get(addr uint16) uint8 {
+	first := m.pending == 0
+	k := m.fetches
+	v := m.vScript.Get(addr)
+	if first && k == m.at {
+		vSettle()
+	}
+	return v
+}
+
+func VC13Twice(lazy, at, k int) {
+	var s States
+	vHavoc(&s, "s")
+	for it := 0; it < vStress(); it++ {
+		vSchedLazy(lazy == 1)
+		ctx1, cancel1 := context.WithCancel(context.Background())
+		d0 := &vScript{bound: 2, shapes: 1}
+		c1 := &CPU{States: s, Memory: d0}
+		err := c1.Run(ctx1)
+		vAssert("first-run-halts", vAnd(vErrKind(err) == 0, c1.HALT))
+		cancel1()
+		mid := c1.States
+		ctx2, cancel2 := context.WithCancel(context.Background())
+		d1 := &vSettleDev{at: at}
+		d1.bound, d1.shapes = k, 3
+		c1.Memory = d1
+		err = c1.Run(ctx2)
+		vAssert("second-run-undisturbed", vAnd(vErrKind(err) == 0, c1.HALT))
+		d2 := &vScript{bound: k, shapes: 3}
+		c2 := &CPU{States: mid, Memory: d2}
+		vTwinRun(c2, k)
+		vAssert("second-run-steps", d1.fetches == d2.fetches)
+		vAssert("second-run-state", c1.States == c2.States)
+		cancel2()
+		vSchedLazy(false)
+		vAssert("no-goroutine-left", vCancelReleased())
+	}
+}
